@@ -252,7 +252,7 @@ theorem rename_refines' {d : Disk} (hs : SInv d) (path nm newName : Bytes)
   cases hx : (dirSlots d.raw 2 ch).find? (isHit fileTypes nm) with
   | none => exact hnotfound (Or.inr hx)
   | some x =>
-  obtain ⟨B, k, hB, hk13, hkey, hxe, hst, hname, hl0, hb0, hua0⟩ := found_slot hs v fsL ch hr ht nm hv x hx
+  obtain ⟨B, k, hB, hk13, hkey, hxe, hst, hname, hl0, hb0, hua0, _⟩ := found_slot hs v fsL ch hr ht nm hv x hx
   subst hxe
   have hprefix : ∀ (res : R Unit) (d1 : Disk),
       Fs.Prodos.modify { block := B, idx := k + 1 } none (some newName) none none d = (res, d1) →
@@ -288,6 +288,7 @@ theorem rename_refines' {d : Disk} (hs : SInv d) (path nm newName : Bytes)
         (Ent.rename (entryAt (unitAt d.raw B) k 39) newName) rfl hlen' hbytes'
         (sameBlocks_of_bytes _ _ hst' (fun j h1 h2 => by rw [hgd j, if_neg (by omega), if_neg (by omega)]))
         (by rw [hgd 30, if_neg (by omega), if_neg (by omega)]; exact hua0)
+        (by rw [htrim']; exact isNameValid_no_slash newName hvn)
         (fun f' _ => Or.inr (by rw [baseRec_path_root, htrim']; exact hfresh))
     rw [hprefix _ _ hmod]
     refine ⟨d4, v, v4, hfl, hs4, hr, hr4, ?_, hlab⟩
